@@ -120,7 +120,7 @@ def near_threshold_pairs(ctx, rng, thorough):
     threshold, in one candidate bucket: found by measuring all pairs of a pool of feature-described
     functions with the real TopologySimilarity.  Just below: they must not be reported as a rename."""
     import gogen
-    npool = 260 if thorough else 140
+    npool = 320 if thorough else 230
     ks = rng.sample(range(len(gogen.FEATS)), npool)
     old = [{"name": "P%03d" % i, "shape": "feat", "k": k, "origin": "pool%d" % i} for i, k in enumerate(ks)]
     new = [dict(f, name="Q" + f["name"][1:]) for f in old]
